@@ -76,10 +76,11 @@ type Worker struct {
 	Verbose int
 
 	// per-instance exploration state
-	dec        []*decision
-	solverBase int // solver depth at instance start (after the instance push)
-	retained   int // decision frames currently on the solver stack
-	restarted  bool
+	dec            []*decision
+	solverBase     int // solver depth at instance start (after the instance push)
+	retained       int // decision frames currently on the solver stack
+	restarted      bool
+	runsInInstance int
 
 	Stats Stats
 }
@@ -171,6 +172,7 @@ type Run struct {
 	concreteMode bool
 
 	startRetained      int
+	firstRun           bool
 	mainMustEnd        bool
 	nontermIsViolation bool
 	stepBudget         int64
@@ -208,6 +210,7 @@ func (w *Worker) ExploreInstance(fn *ssa.Function, params map[string]int, concre
 	w.solverBase = w.S.Depth()
 	w.dec = nil
 	w.retained = 0
+	w.runsInInstance = 0
 	seenViol := map[string]bool{}
 	for {
 		if w.Lim.MaxPaths > 0 && res.Paths >= w.Lim.MaxPaths {
@@ -333,6 +336,8 @@ func (w *Worker) runOnce(fn *ssa.Function, params map[string]int, concreteInputs
 		concreteMode: concreteInputs != nil,
 	}
 	r.startRetained = w.retained
+	r.firstRun = w.runsInInstance == 0
+	w.runsInInstance++
 	g := &Goroutine{id: 0, r: r, wake: make(chan struct{}, 1), name: "main"}
 	r.gs = []*Goroutine{g}
 	r.cur, r.main = g, g
@@ -433,6 +438,14 @@ func (r *Run) assumeTerm(c *sym.Term) {
 	// frame (cursor-1) holds this assumption; it is retained iff cursor <= retainedAtStart.
 	// We track this with the run-local flag: assumptions are re-sent unless the
 	// frame they live in predates this run.
+	if r.cursor == 0 {
+		// base level of the instance: asserted once, on the first run, and never popped
+		if !r.firstRun {
+			return
+		}
+		w.S.Assert(c)
+		return
+	}
 	if r.cursor < r.retainedAtStartPlusOne() {
 		return
 	}
